@@ -15,6 +15,27 @@ def plan(name):
 def scale_for(run):
     return None
 
+def engine_step(run, binary, filters, need_factors=False, flavour='n', scale=None):
+    names = [binary] + (['introspect'] if need_factors else [])
+    exes = D.build_or_violation(run, names, flavour)
+    if not exes: return
+    env = {}
+    if need_factors:
+        if flavour != 'n':
+            exes_n = D.build_or_violation(run, ['introspect'], 'n')
+            if not exes_n: return
+            env['VERIF_FACTORS'] = D.factors_file(exes_n['introspect'])
+        else:
+            env['VERIF_FACTORS'] = D.factors_file(exes['introspect'])
+    D.run_engine(run, binary, exes[binary], filters, flavour=flavour, scale=scale, extra_env=env)
+
+LEXICON = 'the unit lexicon of DESIGN.md Appendix A (SI brochure, NIST SP 811, 1959 yard-pound agreement)'
+
+@plan('C01')
+def c01(run):
+    engine_step(run, 'units', ['C01'], need_factors=True)
+    run.assumptions += [LEXICON, '__float128 evaluation of the exact rational factors (relative error < 2^-110)', 'tolerance 8 ulp for a two-leg conversion (measured maximum on the pinned tree: 3.01 ulp per leg)']
+
 @plan('C06')
 def c06(run):
     exes = D.build_or_violation(run, ['introspect'])
